@@ -58,10 +58,15 @@ def deep_episodes(env: str, cfg: Dict[str, Any], tier: str, extra: Dict[str, Any
     return out
 
 
-def env_cfg_shards(tier: str, env_list: List[str], weight: Dict[str, float] = None, cfg_filter=None, prop: str = None) -> List[Dict[str, Any]]:
+FUZZ_PER_ENV = {"quick": 0, "thorough": 4}
+
+
+def env_cfg_shards(tier: str, env_list: List[str], weight: Dict[str, float] = None, cfg_filter=None, prop: str = None, seed: int = 0) -> List[Dict[str, Any]]:
     out = []
     for e in env_list:
-        for c in E.configs(e, tier):
+        # the fixed matrix, then (thorough tier) random configurations drawn for this seed
+        fuzz = E.fuzz_configs(e, seed, FUZZ_PER_ENV[tier]) if FUZZ_PER_ENV[tier] else []
+        for c in E.configs(e, tier) + fuzz:
             if cfg_filter is not None and not cfg_filter(e, c):
                 continue
             if prop is not None and "props" in c and prop not in c["props"]:
